@@ -1,6 +1,7 @@
 package eng
 
 import (
+	"math/big"
 	"fmt"
 	"go/token"
 	"go/types"
@@ -27,6 +28,7 @@ type Engine struct {
 	classSorts map[string]Sort
 	classKinds map[string]LeafKind
 	initAxioms map[string]*Term
+	classRanges map[string][2]*big.Int // unsigned-integer heap classes: value range
 	strIDs     map[string]int64
 	typeTags   map[string]int64
 	tagTypes   map[int64]types.Type
@@ -124,7 +126,7 @@ func Load(dir string, patterns []string, opts Options) (*Engine, error) {
 	prog, _ := ssautil.AllPackages(pkgs, ssa.NaiveForm|ssa.InstantiateGenerics)
 	prog.Build()
 	e := &Engine{tb: NewTB(), Prog: prog, Pkgs: map[string]*packages.Package{}, SSAPkgs: map[string]*ssa.Package{},
-		Specs: NewSpecSet(), classSorts: map[string]Sort{}, classKinds: map[string]LeafKind{}, initAxioms: map[string]*Term{}, strIDs: map[string]int64{"": 0}, typeTags: map[string]int64{}, tagTypes: map[int64]types.Type{},
+		Specs: NewSpecSet(), classSorts: map[string]Sort{}, classKinds: map[string]LeafKind{}, initAxioms: map[string]*Term{}, classRanges: map[string][2]*big.Int{}, strIDs: map[string]int64{"": 0}, typeTags: map[string]int64{}, tagTypes: map[int64]types.Type{},
 		viewOrigins: map[int]viewOrigin{}, loops: map[*ssa.Function]*funcLoops{}, funcByKey: map[string]*ssa.Function{}, Assumed: map[string]bool{}, Opts: opts}
 	if e.Opts.MaxPaths == 0 {
 		e.Opts.MaxPaths = 4000
@@ -328,7 +330,15 @@ func (e *Engine) oblige(st *State, kind, detail string, pos token.Pos, goal *Ter
 				if d != "" {
 					d += "/"
 				}
-				e.oblige(st, kind, fmt.Sprintf("%sc%d", d, i+1), pos, a, desc)
+				cd := desc
+				if os.Getenv("GOVC_CONJ") != "" {
+					ts := a.String()
+					if len(ts) > 600 {
+						ts = ts[:600] + "..."
+					}
+					cd = desc + "  [conjunct: " + ts + "]"
+				}
+				e.oblige(st, kind, fmt.Sprintf("%sc%d", d, i+1), pos, a, cd)
 			}
 			return
 		}
